@@ -17,6 +17,7 @@ import (
 
 	"github.com/gofiber/utils/v2"
 	"github.com/google/uuid"
+	"github.com/valyala/fasthttp"
 )
 
 // routeParser holds the path segments and param names
@@ -150,6 +151,10 @@ func RoutePatternMatch(path, pattern string, cfg ...Config) bool {
 
 	patternPretty := []byte(pattern)
 
+	// The path is normalised the way the router normalises a request path (configDependentPaths)
+	if config.UnescapePath {
+		path = string(fasthttp.AppendUnquotedArg(nil, []byte(path)))
+	}
 	// Case-sensitive routing, all to lowercase
 	if !config.CaseSensitive {
 		patternPretty = utils.ToLowerBytes(patternPretty)
@@ -158,6 +163,9 @@ func RoutePatternMatch(path, pattern string, cfg ...Config) bool {
 	// Strict routing, remove trailing slashes
 	if !config.StrictRouting && len(patternPretty) > 1 {
 		patternPretty = utils.TrimRight(patternPretty, '/')
+	}
+	if !config.StrictRouting && len(path) > 1 {
+		path = utils.TrimRight(path, '/')
 	}
 
 	parser, _ := routerParserPool.Get().(*routeParser) //nolint:errcheck // only contains routeParser
